@@ -23,8 +23,53 @@ def gen_envs(rng, n_envs, quick=True):
         if rng.chance(1, 4):
             # artefacts an earlier build left at the paths about to be written
             env["dirty"] = {"kind": rng.choice(["longer", "shorter", "other_program", "garbage"]), "fill": rng.hexbytes(8)}
+        # how the program is invoked — none of it may change what the program does:
+        # where the project lives (the command is started one level above, so the spelled path contains the name)
+        env["subdir"] = rng.weighted([(None, 8), ("job#42", 1), ("sp ace", 1), ("é#x", 1), ("<drafts>", 1)])
+        # command-line options (`--verbose` replaces -q/--quick: log records go to stdout and are filtered out)
+        env["flags"] = rng.weighted([([], 18), (["--profile"], 2), (["--no-pb"], 2), (["--verbose"], 1)])
+        # environment variables
+        env["vars"] = rng.weighted([({}, 8), ({"RUST_BACKTRACE": "1"}, 1), ({"TMPDIR": "/dev/shm"}, 1), ({"PWD": "/nonexistent/elsewhere"}, 1)])
         envs.append(env)
     return envs
+
+
+LOG_RECORD = None
+
+
+def program_output(final, env):
+    """stdout of the program itself: without the logger's records (--verbose) and without the profile report."""
+    import re
+    global LOG_RECORD
+    out = core.text(final["out"])
+    flags = env.get("flags") or []
+    if "--verbose" in flags:
+        if LOG_RECORD is None:
+            LOG_RECORD = re.compile(r"^\[ (Trace|Debug|Info|Warning|Warn|Error) \] .*\n?", re.M)
+        out = LOG_RECORD.sub("", out)
+        # a record may span several lines; its continuation lines are indented with a tab (stack and variable dumps)
+        out = re.sub(r"^\t.*\n?", "", out, flags=re.M)
+        # without -q the CLI prints a banner before the program starts
+        out = re.sub(r"\A\n*Compiled in [^\n]*\n\n(Running\.\.\.\n\n)?", "", out)
+    if "--profile" in flags and final["args"][0] == "run":
+        # the report follows the program's output after one empty line
+        cut = out.rfind("\nRuntime Profile:")
+        if cut >= 0:
+            out = out[:cut]
+    return out
+
+
+def invocation(env, files, entry):
+    """-> (files as laid out in the world, cwd relative to the world, spelled entry path, run flags, compile flags, extra env)"""
+    sub = env.get("subdir")
+    flags = list(env.get("flags") or [])
+    verbose = "--verbose" in flags
+    run_flags = ([] if verbose else ["-q"]) + flags
+    compile_flags = ["--verbose"] if verbose else ["--quick"]
+    if sub:
+        files = {sub + "/" + k: v for k, v in files.items()}
+        return files, "", sub + "/" + entry, run_flags, compile_flags, dict(env.get("vars") or {})
+    return files, os.path.dirname(entry), os.path.basename(entry), run_flags, compile_flags, dict(env.get("vars") or {})
 
 
 def run_case(case):
@@ -38,29 +83,36 @@ def run_case(case):
     verdict = None
     for i, env in enumerate(case["envs"]):
         plan = {"seed": env["seed"], "rules": env["rules"]}
+        wfiles, rel_cwd, spelled, run_flags, compile_flags, xenv = invocation(env, files, entry)
+        if env.get("subdir"):
+            st_probes["project_path_contains_hash_or_space"] = 1
+        if "--verbose" in run_flags:
+            st_probes["verbose_logging_on"] = 1
+        if xenv:
+            st_probes["environment_variable_" + sorted(xenv)[0]] = 1
         if env["mode"] == "run":
-            world = core.fresh_world(files, sub="m%d" % i)
+            world = core.fresh_world(wfiles, sub="m%d" % i)
             if env.get("dirty"):
-                pipeline.place_dirty(world, env, pipeline.module_artefacts(files, entry))
+                pipeline.place_dirty(world, env, pipeline.module_artefacts(wfiles, spelled))
                 st_probes["stale_artefacts_present"] = 1
-            p = core.run_cmd(os.path.join(world, os.path.dirname(entry)), ["run", os.path.basename(entry), "-q"], plan=plan, gc=env["gc"])
+            p = core.run_cmd(os.path.join(world, rel_cwd), ["run", spelled] + run_flags, plan=plan, gc=env["gc"], extra_env=xenv)
             procs.append(p)
             rules.append(env["rules"])
             final = p
         else:
-            world = core.fresh_world(files, sub="m%d" % i)
+            world = core.fresh_world(wfiles, sub="m%d" % i)
             if env.get("dirty"):
-                pipeline.place_dirty(world, env, pipeline.module_artefacts(files, entry))
+                pipeline.place_dirty(world, env, pipeline.module_artefacts(wfiles, spelled))
                 st_probes["stale_artefacts_present"] = 1
-            cwd = os.path.join(world, os.path.dirname(entry))
-            c = core.run_cmd(cwd, ["compile", os.path.basename(entry), "--quick"], plan=plan)
+            cwd = os.path.join(world, rel_cwd)
+            c = core.run_cmd(cwd, ["compile", spelled] + compile_flags, plan=plan, extra_env=xenv)
             procs.append(c)
             rules.append(env["rules"])
             if c["rc"] != 0:
                 final = c
             else:
-                p = core.run_cmd(cwd, ["execute", os.path.basename(entry)[:-3] + ".mmm"],
-                                 plan={"seed": env["seed2"], "rules": env["rules"]}, gc=env["gc"])
+                p = core.run_cmd(cwd, ["execute", spelled[:-3] + ".mmm"],
+                                 plan={"seed": env["seed2"], "rules": env["rules"]}, gc=env["gc"], extra_env=xenv)
                 procs.append(p)
                 rules.append(env["rules"])
                 final = p
@@ -77,7 +129,7 @@ def run_case(case):
             if final["args"][0] == "execute" and writes:
                 st_probes["execute_wrote_bytecode"] = 1
         if verdict is None:
-            out = core.text(final["out"])
+            out = program_output(final, env)
             msg = None
             if final["timeout"]:
                 msg = ("timeout", "program did not terminate")
@@ -137,6 +189,11 @@ def shrink(case):
             c = copy.deepcopy(case)
             c["envs"][i]["dirty"] = None
             yield c
+        for key, neutral in (("subdir", None), ("flags", []), ("vars", {})):
+            if e.get(key):
+                c = copy.deepcopy(case)
+                c["envs"][i][key] = neutral
+                yield c
     for g in gens.shrink(case["gen"]):
         c = copy.deepcopy(case)
         c["gen"] = g
